@@ -276,7 +276,17 @@ impl<'p> CoroutinePool<'p> {
     /// Allow multiple threads to concurrently submit task to the pool,
     /// but only allow one thread to execute scheduling.
     pub(crate) fn submit_raw_task(&self, task: Task<'p>) {
-        self.task_queue.push(task);
+        // The local queue is single-producer: only the thread that is scheduling
+        // this pool right now may push to it. Everybody else (user threads, other
+        // event loops) goes through the shared queue, which allows many producers.
+        if Self::current().is_some_and(|pool| std::ptr::eq(pool, self)) {
+            self.task_queue.push(task);
+        } else {
+            BeanFactory::get_or_default::<OrderedWorkStealQueue<Task<'p>>>(
+                crate::common::constants::TASK_GLOBAL_QUEUE_BEAN,
+            )
+            .push(task);
+        }
         self.blocker.notify();
     }
 
